@@ -132,6 +132,19 @@ func (mods *Modifiers) EquivalentTo(other *Modifiers) bool {
 	}
 }
 
+// equivalentTypeNames returns true if two parameter types are the same up to
+// the name of a file type.  File types (file, path, and user-defined file
+// types) may change their names, whether the parameter is a single file or an
+// array or map of files.  Any other type must keep its name.
+func equivalentTypeNames(t, ot TypeId, isFile, otherIsFile bool) bool {
+	if isFile != otherIsFile {
+		return false
+	} else if isFile {
+		return t.ArrayDim == ot.ArrayDim && t.MapDim == ot.MapDim
+	}
+	return t == ot
+}
+
 // Equals returns true if the two parameter sets share the same parameter
 // names and types.  Changes to file type names are ignored.
 func (params *InParams) Equals(other *InParams) bool {
@@ -153,7 +166,8 @@ func (params *InParams) Equals(other *InParams) bool {
 			return false
 		} else if arg.IsFile() != oa.IsFile() {
 			return false
-		} else if arg.IsFile() != KindIsFile && arg.GetTname() != oa.GetTname() {
+		} else if !equivalentTypeNames(arg.Tname, oa.Tname,
+			arg.baseIsFile, oa.baseIsFile) {
 			return false
 		}
 	}
@@ -182,10 +196,10 @@ func (params *OutParams) Equals(other *OutParams, checkOutNames bool) bool {
 			return false
 		} else if arg.IsFile() != oa.IsFile() {
 			return false
-		} else if fk := arg.IsFile(); fk != KindIsFile &&
-			arg.GetTname() != oa.GetTname() {
+		} else if !equivalentTypeNames(arg.Tname, oa.Tname,
+			arg.baseIsFile, oa.baseIsFile) {
 			return false
-		} else if (fk == KindIsFile || fk == KindIsDirectory) &&
+		} else if fk := arg.IsFile(); (fk == KindIsFile || fk == KindIsDirectory) &&
 			checkOutNames && arg.GetOutName() != oa.GetOutName() {
 			return false
 		}
